@@ -180,6 +180,7 @@ void conn_run(const Plan *p, const CredSet *cs, HonestOut *out,
 	Conn *c = net_conn_new(&k, (uint64_t)p->net_seed);
 	c->interpose = p->interpose || on_record != NULL;
 	c->on_record = on_record;
+	c->check_tx = 1;
 
 	Endpoint *cl = &g_ep[0], *sv = &g_ep[1];
 	if (ep_setup(cl, 0, c, p, cs, 0) != 1 || ep_setup(sv, 1, c, p, cs, 1) != 1) {
